@@ -372,6 +372,12 @@ func (d *driver) analyze(res *runResult) {
 			}
 		}
 		res.died = what + " @ " + strings.Join(fs, " < ")
+		if len(fs) == 0 && !strings.Contains(text, "santhosh-tekuri/raft") && (strings.Contains(text, "main.") || text == "") {
+			// the harness itself fell over (or was killed): not a verdict on the library
+			res.rep.Inconclusive = append(res.rep.Inconclusive, "harness died: "+what)
+			fmt.Fprintf(os.Stderr, "check: harness died in %s: %s\n", res.spec.name, what)
+			goto races
+		}
 		sig := "process-died:" + stripDigits(what) + "@" + strings.Join(fs, "<")
 		prop := "C15"
 		if res.spec.pe.Engine == "C" || res.spec.pe.Engine == "D" {
@@ -387,6 +393,7 @@ func (d *driver) analyze(res *runResult) {
 			}
 		}
 	}
+races:
 	// race reports
 	matches, _ := filepath.Glob(filepath.Join(res.dir, "race.*"))
 	for _, m := range matches {
